@@ -185,9 +185,15 @@ def run_case(case):
                 os.makedirs(d, exist_ok=True)
             with open(rel, 'wb') as f:
                 f.write(zbytes if kind[0] == 'zip' else blob(kind, images))
+        # symbolic links (a document reached through a linked file or a linked directory)
+        for link, tgt in case.get('links', []):
+            d = os.path.dirname(link)
+            if d:
+                os.makedirs(d, exist_ok=True)
+            os.symlink(os.path.join(cwd, tgt), link)
         member_names = [m[0] for m in members]
         member_kind = dict((m[0], m[1]) for m in members)
-        disk_kind = dict((r, k) for r, k in disk)
+        disk_kind = dict((r, k) for r, k in list(disk) + list(case.get('disk_virtual', [])))
         calls = []
 
         def loader(fname):
